@@ -1,6 +1,7 @@
 package inactivity
 
 import (
+	"time"
 	"unsafe"
 
 	"go.uber.org/atomic"
@@ -25,6 +26,24 @@ func NewKeepAlive[C Conn](maxRetries uint32, onInactive OnInactiveFunc[C], sendP
 		sendPing:   sendPing,
 		onInactive: onInactive,
 	}
+}
+
+// KeepAliveMonitor is an inactivity monitor that drives a KeepAlive: every period without a received
+// message is reported to the keep-alive, and every received message - not only the pong of the
+// current ping - proves the peer alive and resets the keep-alive's count of unanswered pings.
+type KeepAliveMonitor[C Conn] struct {
+	*Monitor[C]
+	keepAlive *KeepAlive[C]
+}
+
+func (m *KeepAliveMonitor[C]) Notify() {
+	m.keepAlive.resetFails()
+	m.Monitor.Notify()
+}
+
+// NewMonitor creates the inactivity monitor for the keep-alive.
+func (m *KeepAlive[C]) NewMonitor(period time.Duration) *KeepAliveMonitor[C] {
+	return &KeepAliveMonitor[C]{Monitor: New(period, m.OnInactive), keepAlive: m}
 }
 
 func (m *KeepAlive[C]) checkCancelPing() {
